@@ -274,11 +274,15 @@ func init() {
 			maxStates = 2000000
 		}
 		votes := map[string]interface{}{}
+		knownHits := map[string]int{}
 		vStates, vTrans, vViol, vCapped := 0, 0, 0, false
 		for _, sp := range c12VoteSpecs(c.Quick()) {
 			st, e := c12VoteMaster(c, sp, maxStates)
 			if e != "" {
 				return EngineError("%s", e)
+			}
+			for k, n := range st.Known {
+				knownHits[k] += n
 			}
 			vStates += st.States
 			vTrans += st.Transitions
@@ -293,6 +297,7 @@ func init() {
 			fmt.Printf("  votes %-36s states=%d transitions=%d depth=%d winners=%d violations=%d%s\n", sp.Name, st.States, st.Transitions, len(st.PerDepth), len(w), st.Violations, map[bool]string{true: " (state cap hit)", false: ""}[st.Capped])
 		}
 		res.Violations += vViol
+		c.ReportKnown(knownHits)
 		cov := p.Coverage(res, "deviation-bounded DFS over the delivery order of vote / proposal / commit / announcement traffic (every network read, write, accept and every blocking is a choice point; handlers atomic) between two surviving members of a 3-member replica set after the leader's process was killed, with an optional kill-and-restart of one member from its saved metadata; a sampler evaluates every 20 virtual ms: accepted and committed numbers never decrease per member (also across the restart), never two leaders at once; at the end: a leader exists, it is the member with the newest log, persisted and majority-acknowledged holds are held by it; non-trivial = every execution (two candidates compete)", c.Quick())
 		cov["message_level_search"] = votes
 		cov["states"] = vStates
@@ -301,7 +306,7 @@ func init() {
 		if vCapped {
 			cov["exhaustive"] = false
 		}
-		c.WriteEvidence("exploration", cov, []string{"message-level search: explicit-state BFS over fate and order of every vote / proposal / commit request of 2-3 simultaneous candidates on real ArbiterManager objects (3-5 members incl. weight-0 members and arbiters, log positions across the wrap-around, permanently down links, bounded number of lost requests / replies); a candidate's own acceptance happens when its phase starts; member restart is covered by the full-node scenario only",
+		c.WriteEvidence("exploration", cov, []string{"message-level search: explicit-state BFS over fate and order of every vote / proposal / commit request of 2-3 simultaneous candidates on real ArbiterManager objects (3-5 members incl. weight-0 members and arbiters, log positions across the wrap-around, permanently down links, bounded number of lost requests / replies); a candidate's own acceptance happens when its phase starts; non-candidate members may be restarted from their saved metadata between events (real ArbiterStore.Save/Load)",
 			"full-node scenarios: 3 members, 2 concurrent candidates", "coarse scheduling: message handlers are atomic", "message loss is not injected beyond the dead leader's connections; kill -9 of real OS processes is replaced by in-process group kill"}, res.Violations)
 		fmt.Printf("C12 %s: %d executions, %d distinct traces; message-level search: %d states, %d transitions; %d violations\n", c.Tier, res.Total.Executions, len(res.Total.Traces), vStates, vTrans, res.Violations)
 		if res.Violations > 0 {
